@@ -140,7 +140,11 @@ def plan(tier, seed):
 
 def generate(gen, defaults, fmt, exclude):
     buf = io.StringIO()
-    with world.entry_points(policies={'ns': defaults}):
+    # services hand their defaults over as a list or as a one-shot iterator
+    # (itertools.chain over modules); alternate between the two
+    generate.calls = getattr(generate, 'calls', 0) + 1
+    handed = iter(list(defaults)) if generate.calls % 3 == 0 else defaults
+    with world.entry_points(policies={'ns': handed}):
         with contextlib.redirect_stdout(buf):
             gen._generate_sample(['ns'], output_file=None, output_format=fmt,
                                  exclude_deprecated=exclude)
